@@ -41,12 +41,14 @@ GridNewOK(ev) ==
   ELSE For("C11") => /\ Threw(ev, "out") /\ ev.out_what = 1
                      /\ (Len(ev.pts) < 2 => ev.out_code = "MISSING_DATA")
 
-GridFindOK(ev) == For("C13") => IdxRes(ev, "find", GridFind(ev.g, ev.x))
+GridFindOK(ev) == /\ For("C13") => IdxRes(ev, "find", GridFind(ev.g, ev.x))
+                  /\ For("C14") => ev.g_after = ev.g
 
 GridAtOK(ev) ==
   LET inr == ev.top = 0 /\ ev.i < Len(ev.g)
   IN /\ For("C13") \/ (For("C09") /\ ~inr) => RatRes(ev, "at", IF inr THEN ev.g[ev.i + 1] ELSE NoneR)
      /\ For("C13") => (inr => ev.sub_v = ev.g[ev.i + 1])
+     /\ For("C14") => ev.g_after = ev.g
 
 SupNewOK(ev) ==
   LET small == ev.stop = 0 /\ ev.etop = 0
@@ -57,16 +59,18 @@ SupNewOK(ev) ==
      /\ For("C13") => /\ (ev.out = "ok" => SupOf(ev.res) = S)
                        /\ SupOf(ev.mkempty) = SupEmptyOn(ev.g)
                        /\ SupOf(ev.mkwhole) = SupWhole(ev.g)
+     /\ For("C14") => ev.g_after = ev.g
 
 SupReadOK(ev) ==
   LET S == SupOf(ev.a) IN
-  For("C13") =>
-  /\ SupValid(S)
-  /\ ev.size = SupSize(S) /\ B(ev.empty) = SupIsEmpty(S)
-  /\ B(ev.hasiv) = SupHasIntervals(S) /\ ev.nint = SupNInt(S)
-  /\ RatRes(ev, "front", SupFront(S)) /\ RatRes(ev, "back", SupBack(S))
-  /\ ev.iter = SupIter(S) /\ ev.dist = SupSize(S) /\ ev.sub = SupIter(S)
-  /\ B(ev.grid_eq) /\ B(ev.self_eq)
+  /\ For("C14") => SupOf(ev.a_after) = S                                     \* reading changes nothing
+  /\ For("C13") =>
+       /\ SupValid(S)
+       /\ ev.size = SupSize(S) /\ B(ev.empty) = SupIsEmpty(S)
+       /\ B(ev.hasiv) = SupHasIntervals(S) /\ ev.nint = SupNInt(S)
+       /\ RatRes(ev, "front", SupFront(S)) /\ RatRes(ev, "back", SupBack(S))
+       /\ ev.iter = SupIter(S) /\ ev.dist = SupSize(S) /\ ev.sub = SupIter(S)
+       /\ B(ev.grid_eq) /\ B(ev.self_eq)
 
 SupIdxOK(ev) ==
   LET S == SupOf(ev.a)
@@ -83,6 +87,7 @@ SupIdxOK(ev) ==
           /\ (ev.rel # None => AbsFromRel(S, ev.rel) = i)
      \* checked accessors throw for every index outside the view (C09)
      /\ For("C09") => (~inr => Threw(ev, "at") /\ Threw(ev, "abs"))
+     /\ For("C14") => SupOf(ev.a_after) = S
 
 SupBinOK(ev) ==
   LET a == SupOf(ev.a)
@@ -103,10 +108,11 @@ SupTriOK(ev) ==
       b == SupOf(ev.b)
       c == SupOf(ev.c)
       all == SupPts(a) \cup SupPts(b) \cup SupPts(c)
-  IN For("C13") =>
-     /\ SupOf(ev.u_l) = SupOf(ev.u_r) /\ SupOf(ev.i_l) = SupOf(ev.i_r)
-     /\ SupValid(SupOf(ev.u_l)) /\ SupPts(SupOf(ev.u_l)) = Hull(all)
-     /\ SupValid(SupOf(ev.i_l)) /\ SupPts(SupOf(ev.i_l)) = SupPts(a) \cap SupPts(b) \cap SupPts(c)
+  IN /\ For("C14") => SupOf(ev.a_after) = a /\ SupOf(ev.b_after) = b /\ SupOf(ev.c_after) = c
+     /\ For("C13") =>
+          /\ SupOf(ev.u_l) = SupOf(ev.u_r) /\ SupOf(ev.i_l) = SupOf(ev.i_r)
+          /\ SupValid(SupOf(ev.u_l)) /\ SupPts(SupOf(ev.u_l)) = Hull(all)
+          /\ SupValid(SupOf(ev.i_l)) /\ SupPts(SupOf(ev.i_l)) = SupPts(a) \cap SupPts(b) \cap SupPts(c)
 
 EventOK_Sup(ev) ==
   CASE ev.op = "GridNew" -> GridNewOK(ev)
@@ -128,6 +134,7 @@ SplOf(j) == Spl(j.g, j.s, j.e, j.o, j.c)
 SplNewOK(ev) ==
   LET p == Spl(ev.g, ev.s, ev.e, ev.o, ev.c)
   IN /\ For("C11") => IF SplValid(p) THEN ev.out = "ok" ELSE Threw(ev, "out") /\ ev.out_what = 1
+     /\ For("C14") => ev.g_after = ev.g
      /\ For("C10") => /\ (ev.out = "ok" => SplValid(SplOf(ev.res)))
                        /\ SplValid(SplOf(ev.mkempty))
      /\ For("C03") => /\ (ev.out = "ok" => SplOf(ev.res) = p)
@@ -196,7 +203,7 @@ SplLinOK(ev) ==
       cs == ev.cs
       sizesOK == Len(cs) = Len(ss) /\ Len(cs) >= 1
       gridsOK == \A i \in DOMAIN ss : ss[i].g = ss[1].g
-  IN /\ For("C14") => \A i \in DOMAIN ss : SplOf(ev.ss_after[i]) = ss[i]
+  IN /\ For("C14") => (\A i \in DOMAIN ss : SplOf(ev.ss_after[i]) = ss[i]) /\ ev.cs_after = cs
      /\ For("C10") => (\A k \in {"lc_v", "lci_v"} : (Has(ev, k) => SplValid(SplOf(ev[k]))))
      /\ IF sizesOK /\ gridsOK
         THEN For("C03") \/ For("C08") \/ For("C11") =>
@@ -289,7 +296,8 @@ GenEvOK(ev) ==
      /\ For("C11") => IF valid THEN ev.out = "ok" ELSE Threw(ev, "out")
      /\ For("C08") => (kv /\ ~match => Threw(ev, "out"))
      /\ For("C10") => (ev.out = "ok" => \A i \in DOMAIN res : SplValid(res[i]))
-     /\ For("C14") => (ev.out = "ok" /\ Has(ev, "grid_shared") => B(ev.grid_shared))
+     /\ For("C14") => /\ (ev.out = "ok" /\ Has(ev, "grid_shared") => B(ev.grid_shared))
+                       /\ ev.knots_after = k                                 \* the caller's knot vector stays as it was
 
 -----------------------------------------------------------------------------
 \* interpolation with the exact solver (C12, C11)
